@@ -360,6 +360,64 @@ slab_d (int m)
     }
 }
 
+/* (h) every value of the other methods' numeric cost fields over a range: the hash parts must be pairwise different (a loop
+   that rounds the count, a decoder that drops a digit or a bit, maps two costs to one) */
+static const struct { int m; const char *name; int lo, hi; } hfields[] = {
+  { M_SHA256, "sha256crypt-rounds", 1000, 1064 }, { M_SHA512, "sha512crypt-rounds", 1000, 1064 }, { M_SHA1, "sha1crypt-iterations", 1, 64 },
+  { M_SUNMD5, "sunmd5-rounds", 1, 40 }, { M_BCRYPT_B, "bcrypt-cost", 4, 9 }, { M_BSDI, "bsdicrypt-count", 1, 130 },
+  { M_SCRYPT, "scrypt-N", 2, 10 }, { M_SCRYPT, "scrypt-r", 1, 70 }, { M_SCRYPT, "scrypt-p", 1, 70 },
+};
+#define NHFIELDS ((int) (sizeof hfields / sizeof *hfields))
+
+static void
+hsetting (int fi, int v, char *dst, size_t dl)
+{
+  switch (fi)
+    {
+    case 0: snprintf (dst, dl, "$5$rounds=%d$saltSALT", v); break;
+    case 1: snprintf (dst, dl, "$6$rounds=%d$saltSALT", v); break;
+    case 2: snprintf (dst, dl, "$sha1$%d$saltSALT", v); break;
+    case 3: snprintf (dst, dl, "$md5,rounds=%d$saltSALT", v); break;
+    case 4: snprintf (dst, dl, "$2b$%02d$abcdefghijklmnopqrstuu", v); break;
+    case 5: snprintf (dst, dl, "_%c%c..salt", A64[v & 63], A64[(v >> 6) & 63]); break;
+    case 6: snprintf (dst, dl, "$7$%c/..../....saltSALT", A64[v]); break;
+    case 7: snprintf (dst, dl, "$7$4%c%c.../....saltSALT", A64[v & 63], A64[(v >> 6) & 63]); break;
+    default: snprintf (dst, dl, "$7$4/....%c%c...saltSALT", A64[v & 63], A64[(v >> 6) & 63]); break;
+    }
+}
+
+static void
+slab_h (int fi)
+{
+  enum { HMAX = 140 };
+  static char hp[HMAX][100], st[HMAX][64];
+  char rp[32], sig[160];
+  int m = hfields[fi].m, n = hfields[fi].hi - hfields[fi].lo + 1;
+  snprintf (rp, sizeof rp, "h:%d", fi);
+  for (int i = 0; i < n; i++)
+    {
+      hsetting (fi, hfields[fi].lo + i, st[i], sizeof st[i]);
+      char *h = hash ("pw", st[i], d1);
+      vh_stat ("cost_values", 1);
+      if (!h)
+        {
+          snprintf (sig, sizeof sig, "cost-value-refused/%s", hfields[fi].name);
+          vh_viol (sig, "{\"method\":\"%s\",\"field\":\"%s\",\"value\":%d,\"setting\":%s,\"replay\":\"%s\"}", vh_methods[m].name, hfields[fi].name, hfields[fi].lo + i, vh_jstr (st[i]), rp);
+          return;
+        }
+      snprintf (hp[i], sizeof hp[i], "%s", h + hash_off (method_of (h), h));
+    }
+  for (int a = 0; a < n; a++)
+    for (int b = a + 1; b < n; b++)
+      if (!strcmp (hp[a], hp[b]))
+        {
+          snprintf (sig, sizeof sig, "salt-or-cost-not-in-hash/%s/method=%s", hfields[fi].name, vh_methods[m].name);
+          vh_viol (sig, "{\"method\":\"%s\",\"what\":\"two values of the cost field give the same hash part\",\"value_a\":%d,\"value_b\":%d,\"setting_a\":%s,\"setting_b\":%s,\"hash_part\":%s,\"replay\":\"%s\"}",
+                   vh_methods[m].name, hfields[fi].lo + a, hfields[fi].lo + b, vh_jstr (st[a]), vh_jstr (st[b]), vh_jstr (hp[a]), rp);
+          return;
+        }
+}
+
 /* (f) salts of every length each method accepts (and a little beyond): a change of one salt character at any position, or
    a cost step, must change the hash part unless the echoed setting shows that the character was dropped */
 static const struct { int m; const char *head, *head2; int maxlen, yenc; } fheads[] = {
@@ -480,6 +538,8 @@ main (int argc, char **argv)
         slab_f (a, b);
       else if (sscanf (vh_replay, "g:%d:%d", &a, &b) == 2)
         slab_g (a, b);
+      else if (sscanf (vh_replay, "h:%d", &a) == 1)
+        slab_h (a);
       else if (sscanf (vh_replay, "c:%d", &a) == 1)
         slab_c (a);
       else if (sscanf (vh_replay, "d:%d", &a) == 1)
@@ -500,6 +560,9 @@ main (int argc, char **argv)
     for (int w = 0; w < 2; w++)
       if (vh_mine (idx++))
         slab_g (field, w);
+  for (int fi = 0; fi < NHFIELDS; fi++)
+    if (vh_mine (idx++))
+      slab_h (fi);
   for (int hi = 0; hi < NFHEADS; hi++)
     for (int L = 1; L <= fheads[hi].maxlen; L++)
       if (vh_mine (idx++))
